@@ -123,12 +123,35 @@ fn copy_without_snapshots(storage: &StorageSystem, src: &Ident, dst: &Ident) -> 
     Ok(n)
 }
 
+fn plain<A: Aggregate>(a: &A) -> Value {
+    serde_json::to_value(a).unwrap_or(Value::Null)
+}
+
+/// The serde view plus the API views of a CA (the serde view alone would
+/// hide state that a faulty `skip_serializing_if` drops on both sides).
+fn ca_view(ca: &CertAuth) -> Value {
+    let mut info = serde_json::to_value(ca.as_ca_info()).unwrap_or(Value::Null);
+    if let Some(m) = info.as_object_mut() {
+        // a union whose textual form depends on map iteration order; the
+        // per-class certificates are compared instead
+        m.remove("resources");
+    }
+    serde_json::json!({
+        "state": serde_json::to_value(ca).unwrap_or(Value::Null),
+        "info": info,
+        "roas": serde_json::to_value(ca.configured_roas()).unwrap_or(Value::Null),
+        "aspas": serde_json::to_value(ca.aspas_definitions_show()).unwrap_or(Value::Null),
+        "bgpsec": serde_json::to_value(ca.bgpsec_definitions_show()).unwrap_or(Value::Null),
+    })
+}
+
 fn agg_views<A: Aggregate>(
     storage: &StorageSystem,
     ns: &'static Ident,
     scratch: &'static Ident,
     what: &str,
     live: &BTreeMap<String, Value>,
+    view: fn(&A) -> Value,
 ) -> Result<(usize, bool), Bad> {
     // (B) fresh store on the same storage: snapshot + later commands
     let b_store = AggregateStore::<A>::create(storage, ns, false).map_err(|e| bad("c06-open", what, e.to_string()))?;
@@ -157,8 +180,10 @@ fn agg_views<A: Aggregate>(
             Ok(Err(e)) => return Err(bad("c06-replay-fails", what, format!("{what} {hs}: replay from scratch: {e}"))),
             Ok(Ok(a)) => a,
         };
-        let mut bv = serde_json::to_value(&*b).unwrap_or(Value::Null);
-        let mut cv = serde_json::to_value(&*c).unwrap_or(Value::Null);
+        let mut bv = view(&b);
+        let mut cv = view(&c);
+        sort_arrays(&mut bv);
+        sort_arrays(&mut cv);
         mask(&mut bv);
         mask(&mut cv);
         if let Some(d) = first_diff(&bv, &cv, String::new()) {
@@ -189,8 +214,9 @@ fn check(sim: &Sim) -> Result<(usize, usize, bool), Bad> {
         }
         if let Ok(c) = sim.w().cam().get_ca(&CaHandle::from_str(&ca).unwrap()) {
             commands += c.version() as usize;
-            let mut v = serde_json::to_value(&*c).unwrap_or(Value::Null);
+            let mut v = ca_view(&c);
             mask(&mut v);
+            sort_arrays(&mut v);
             live_cas.insert(ca, v);
         }
     }
@@ -199,26 +225,28 @@ fn check(sim: &Sim) -> Result<(usize, usize, bool), Bad> {
         commands += p.version() as usize;
         let mut v = serde_json::to_value(&*p).unwrap_or(Value::Null);
         mask(&mut v);
+        sort_arrays(&mut v);
         live_proxy.insert(ta_handle().to_string(), v);
     }
     let mut live_signer = BTreeMap::new();
     if let Ok(p) = sim.w().cam().get_trust_anchor_signer() {
         let mut v = serde_json::to_value(&*p).unwrap_or(Value::Null);
         mask(&mut v);
+        sort_arrays(&mut v);
         live_signer.insert(ta_handle().to_string(), v);
     }
     let mut entities = 0;
     let mut snap = false;
-    let (n, s) = agg_views::<CertAuth>(storage, CASERVER_NS, Ident::make("c06cas"), "CA", &live_cas)?;
+    let (n, s) = agg_views::<CertAuth>(storage, CASERVER_NS, Ident::make("c06cas"), "CA", &live_cas, ca_view)?;
     entities += n;
     snap |= s;
-    let (n, s) = agg_views::<TrustAnchorProxy>(storage, TA_PROXY_SERVER_NS, Ident::make("c06proxy"), "TA proxy", &live_proxy)?;
+    let (n, s) = agg_views::<TrustAnchorProxy>(storage, TA_PROXY_SERVER_NS, Ident::make("c06proxy"), "TA proxy", &live_proxy, plain)?;
     entities += n;
     snap |= s;
-    let (n, s) = agg_views::<TrustAnchorSigner>(storage, TA_SIGNER_SERVER_NS, Ident::make("c06signer"), "TA signer", &live_signer)?;
+    let (n, s) = agg_views::<TrustAnchorSigner>(storage, TA_SIGNER_SERVER_NS, Ident::make("c06signer"), "TA signer", &live_signer, plain)?;
     entities += n;
     snap |= s;
-    let (n, s) = agg_views::<RepositoryAccess>(storage, PUBSERVER_NS, Ident::make("c06pubd"), "repository access", &BTreeMap::new())?;
+    let (n, s) = agg_views::<RepositoryAccess>(storage, PUBSERVER_NS, Ident::make("c06pubd"), "repository access", &BTreeMap::new(), plain)?;
     entities += n;
     snap |= s;
     // repository content (write-ahead log): can only be rebuilt from its last
